@@ -355,7 +355,11 @@ func schedMain(seed int64, thorough bool) {
 					cm = s + 1 + uint64(rng.Intn(4))
 				}
 			}
-			tx = append(tx, txn{shuffled(rng, sub4[rng.Intn(len(sub4))]), s, cm})
+			ks := shuffled(rng, sub4[rng.Intn(len(sub4))])
+			if rng.Intn(8) == 0 {
+				ks = nil // Lock with no keys: returns at once, its UnLock still goes through run()
+			}
+			tx = append(tx, txn{ks, s, cm})
 		}
 		c := &config{size: []int{1, 2, 4}[rng.Intn(3)], pat: []int{0, 1, 1, 0}, txns: tx}
 		closeAt := -1
